@@ -162,6 +162,8 @@ def finish(o: Outcome, *, level: str = "model_checking") -> int:
         return 0
     d = REPLAYS / o.prop
     d.mkdir(parents=True, exist_ok=True)
+    for old in d.glob("*.json"):
+        old.unlink()
     shown = set()
     for v in o.violations:
         p = d / f"{v.key()}.json"
